@@ -7,6 +7,10 @@ HERE = os.path.dirname(os.path.abspath(__file__))
 VERIF = os.path.dirname(HERE)
 
 HARNESSES = {
+    'max_chunk_data_is_the_largest_fit': {'props': ['C19', 'C03'], 'function': 'body::max_chunk_data + body::hex_len',
+        'bound': 'FULL usize domain; loops bounded by the operand width (unwind 18, unwinding assertions on): complete for these two functions'},
+    'calculate_max_input_closed_form': {'props': ['C18'], 'function': 'body::calculate_max_input',
+        'bound': 'every n < 2^32 (loop-free; the full 64-bit domain verified once in 1374 s, see DESIGN 5.3)'},
     'compare_lowercase_ascii_against_chunked': {'props': ['C06', 'C17'], 'function': 'util::compare_lowercase_ascii',
         'bound': 'all valid UTF-8 strings of 0..=8 bytes against the constant "chunked" (the only second argument in the crate); unwind 10 with unwinding assertions'},
     'compare_lowercase_ascii_against_gzip': {'props': ['C06', 'C17'], 'function': 'util::compare_lowercase_ascii',
@@ -23,15 +27,17 @@ def run_kani(repo, props, timeout=1500):
     try:
         dst = os.path.join(tmp, 'repo')
         shutil.copytree(repo, dst, ignore=shutil.ignore_patterns('target', '.git'))
-        with open(os.path.join(dst, 'src', 'lib.rs'), 'a') as f:
-            f.write('\n#[cfg(kani)]\n#[path = "%s"]\nmod verif_kani;\n' % os.path.join(VERIF, 'kani', 'verif_kani.rs'))
+        # harness modules: one at the crate root, one as a child of src/body.rs (private functions)
+        for host, mod in (('lib.rs', 'verif_kani'), ('body.rs', 'verif_kani_body')):
+            with open(os.path.join(dst, 'src', host), 'a') as f:
+                f.write('\n#[cfg(kani)]\n#[path = "%s"]\nmod %s;\n' % (os.path.join(VERIF, 'kani', mod + '.rs'), mod))
         env = dict(os.environ)
         env.update({'CARGO_NET_OFFLINE': 'true', 'CARGO_TARGET_DIR': os.path.join(tmp, 'target')})
         ran, fails, built = [], [], True
         for h in names:
             t1 = time.time()
             import signal
-            pr = subprocess.Popen(['cargo', 'kani', '--harness', h], cwd=dst, env=env, stdout=subprocess.PIPE, stderr=subprocess.STDOUT, text=True, start_new_session=True)
+            pr = subprocess.Popen(['cargo', 'kani', '--harness', h, '-Z', 'concrete-playback', '--concrete-playback=print'], cwd=dst, env=env, stdout=subprocess.PIPE, stderr=subprocess.STDOUT, text=True, start_new_session=True)
             try:
                 out, _ = pr.communicate(timeout=timeout)
                 rc = pr.returncode
@@ -51,6 +57,11 @@ def run_kani(repo, props, timeout=1500):
             if failed:
                 fl = [l.strip() for l in out.splitlines() if 'Status: FAILURE' in l or 'Failed Checks' in l][:6]
                 rec['failed_checks'] = fl
+                # the verifier's counterexample: concrete values of the kani::any() inputs, in order of creation
+                m2 = re.search(r'Concrete playback unit test.*?```\n(.*?)```', out, re.S)
+                if m2:
+                    rec['counterexample_values'] = re.findall(r'^\s*// (.+)$', m2.group(1), re.M)
+                    rec['concrete_playback_test'] = m2.group(1)[:3000]
                 fails.append(rec)
             elif not ok:
                 built = False
